@@ -5,7 +5,9 @@ package rawconfigtrafficcontroller
 // RawConfigTrafficController (traffic gates and pipelines of the default namespace).
 
 import (
+	"github.com/megaease/easegress/pkg/cluster"
 	"github.com/megaease/easegress/pkg/object/trafficcontroller"
+	"github.com/megaease/easegress/pkg/option"
 	"github.com/megaease/easegress/pkg/supervisor"
 )
 
@@ -22,6 +24,7 @@ const (
 	c20CatBiz  = supervisor.CategoryBusinessController
 	c20CatGate = supervisor.CategoryTrafficGate
 	c20CatPipe = supervisor.CategoryPipeline
+	c20CatSys  = supervisor.CategorySystemController
 	c20Pkg     = "rawconfigtrafficcontroller"
 )
 
@@ -33,6 +36,10 @@ var (
 )
 
 func c20Traffic(k string) bool { return k == "G1" || k == "P1" }
+
+// (the staged start needs the unexported parts of package supervisor: not available here; the
+// watcher of RawConfigTrafficController is created late in MustNew anyway)
+var c20MustNewStaged func(opt *option.Options, cls cluster.Cluster, between func()) *supervisor.Supervisor
 
 // c20LiveEntities: everything the supervisor and the traffic controller report as live.
 func c20LiveEntities(s *supervisor.Supervisor) []*supervisor.ObjectEntity {
